@@ -30,6 +30,10 @@ CREATE = {
     "q": ("AV2 = A[1:]\nq = mg.multiply(x[1:], AV2)", {"X", "A", "AV2", "Q"}, ["x"], set()),
     "w": ("w = mg.matmul(B, x)", {"B", "X", "W"}, ["x"], set()),
     "u": ("u = mg.tensor(A, copy=False) * 2.0", {"A", "U"}, [], set()),
+    # two graphs writing into rows of ONE pre-allocated buffer through out= views of it
+    # (BV0, BV1 are NumPy views of BUF taken before anything is locked)
+    "p": ("p = mg.add(x, A, out=BV0)", {"X", "A", "BUF", "BV0"}, ["x"], set()),
+    "r": ("r = mg.multiply(x, A, out=BV1)", {"X", "A", "BUF", "BV1"}, ["x"], set()),
 }
 RESULT_ARRAY = {"y": "Y", "z": "Z", "v": "V", "o": "O", "q": "Q", "w": "W", "u": "U"}
 
@@ -156,31 +160,33 @@ def run_history(mg, prog):
     Rr.flags.writeable = False
     O = np.zeros(3)
     B = np.ones((2, 3))
+    BUF = np.zeros((2, 3))
     x = mg.tensor([1.5, -2.0, 0.75])
-    env = {"mg": mg, "np": np, "x": x, "A": A, "AV": AV, "R": Rr, "O": O, "B": B}
-    original = {"A": True, "AV": True, "R": False, "O": True, "B": True, "AV2": True, "X": True}
+    BV0, BV1 = BUF[0], BUF[1]
+    env = {"mg": mg, "np": np, "x": x, "A": A, "AV": AV, "R": Rr, "O": O, "B": B, "BUF": BUF, "BV0": BV0, "BV1": BV1}
+    original = {"A": True, "AV": True, "R": False, "O": True, "B": True, "AV2": True, "X": True, "BUF": True, "BV0": True, "BV1": True}
     model = Model()
     trace = []
 
     def arrays():
-        d = {"A": A, "AV": AV, "R": Rr, "O": O, "B": B, "X": env["x"].data}
+        d = {"A": A, "AV": AV, "R": Rr, "O": O, "B": B, "BUF": BUF, "BV0": BV0, "BV1": BV1, "X": env["x"].data}
         if "AV2" in env:
             d["AV2"] = env["AV2"]
         for t, a in RESULT_ARRAY.items():
-            if t in env and a != "O":
+            if t in env and a not in ("O",):
                 d[a] = env[t].data
         return d
 
     def check(after):
         for name, arr in arrays().items():
             sp = "original" if name == "R" else model.spec(name)
-            if name in ("AV", "AV2"):
+            if name in ("AV", "AV2", "BV0", "BV1"):
                 if name not in model.entered:
                     continue  # a view that never entered an operation is outside the property (NumPy flags are per array object)
                 # a NumPy view's memory is its owner's: locked while the owner is, original only when both are
-                spA = model.spec("A")
+                spA = model.spec("A" if name.startswith("AV") else "BUF")
                 sp = "locked" if "locked" in (sp, spA) else (sp if spA == "original" else None)
-            if name in ("Y", "Z", "V", "Q", "W", "U"):
+            if name in ("Y", "Z", "V", "Q", "W", "U", "Gx"):
                 if sp == "locked" and arr.flags.writeable:
                     return "after `%s`: result array %s of a live graph is writeable" % (after, name)
                 continue
@@ -245,9 +251,9 @@ def run_history(mg, prog):
             env.pop(n, None)
         env.pop("AV2", None) if False else None
         for name, arr in arrays().items():
-            if name in ("Y", "Z", "V", "Q", "W", "U"):
+            if name in ("Y", "Z", "V", "Q", "W", "U", "Gx"):
                 continue
-            if name in ("AV", "AV2") and name not in model.entered:
+            if name in ("AV", "AV2", "BV0", "BV1") and name not in model.entered:
                 continue
             if bool(arr.flags.writeable) != original[name]:
                 return "at quiescence: %s has writeable=%s, original %s" % (name, arr.flags.writeable, original[name])
